@@ -143,14 +143,14 @@ Lemma list_eqb_N_refl : forall l, list_eqb N.eqb l l = true.
 Proof. apply list_eqb_refl. apply N.eqb_refl. Qed.
 
 Lemma out_matches_expected : forall ids ev i k item o,
-  link_of ids ev = Some (i, k, item) -> out_matches (spec_output ev) o = true ->
-  out_obs_eqb (expected_out i k item) o = true.
+  link_of ids ev = Some (i, k, item) -> out_matches ev (spec_output ev) o = true ->
+  out_obs_eqb (expected_out i k item) o || (item && is_account_item ev && out_obs_eqb OutPositionExit o) = true.
 Proof.
   intros ids ev i k item o Hl H. destruct ev as [id|idx|id|id]; cbn in Hl.
-  - destruct (existsb (N.eqb id) ids); [|discriminate]. inversion Hl; subst. destruct o; cbn in *; congruence.
-  - destruct (nth_error ids (N.to_nat idx)); [|discriminate]. inversion Hl; subst. destruct o; cbn in *; congruence.
-  - destruct (existsb (N.eqb id) ids); [|discriminate]. inversion Hl; subst. destruct o; cbn in *; congruence.
-  - destruct (existsb (N.eqb id) ids); [|discriminate]. inversion Hl; subst. destruct o; cbn in *; congruence.
+  - destruct (existsb (N.eqb id) ids); [|discriminate]. inversion Hl; subst. destruct o; cbn in *; try discriminate; try reflexivity; try (rewrite H; reflexivity).
+  - destruct (nth_error ids (N.to_nat idx)); [|discriminate]. inversion Hl; subst. destruct o; cbn in *; try discriminate; try reflexivity; try (rewrite H; reflexivity).
+  - destruct (existsb (N.eqb id) ids); [|discriminate]. inversion Hl; subst. destruct o; cbn in *; try discriminate; try reflexivity; try (rewrite H; reflexivity).
+  - destruct (existsb (N.eqb id) ids); [|discriminate]. inversion Hl; subst. destruct o; cbn in *; try discriminate; try reflexivity; try (rewrite H; reflexivity).
 Qed.
 
 Lemma spec_calls_single : forall ids ev i k item, link_of ids ev = Some (i, k, item) ->
